@@ -1,5 +1,5 @@
 CONSTANTS
-  MaxTicks = 7
+  MaxTicks = 6
   MaxReq = 5
   SecondCancel = TRUE
 SPECIFICATION Spec
